@@ -128,8 +128,12 @@ pub fn build(root: &Path, c: &OsCase) -> Built {
                 pre_writer.insert(o.name.clone(), plant(&target_dir, o, 50, i as i128, i % 2 == 0, 17));
             }
             // stale debris from an earlier crash, to be removed by the maintenance
-            plant_file(&target_dir.join(".kismet_temp").join("stale-debris"), b"debris", 0o600);
-            set_times_ns(&target_dir.join(".kismet_temp").join("stale-debris"), old, old).unwrap();
+            // (many of them: a cleanup that only handles a bounded batch must not leave the rest forever)
+            for i in 0..20 {
+                let p = target_dir.join(".kismet_temp").join(format!("stale-debris-{}", i));
+                plant_file(&p, b"debris", 0o600);
+                set_times_ns(&p, old, old).unwrap();
+            }
         }
     }
     Built { case: c.clone(), wspec, stack, key, others, new_val: Val::new(KEY, 1, 1, c.size), pre_writer, pre_reader, target_dir }
@@ -328,7 +332,7 @@ pub fn debris_lifecycle(root: &Path, b: &Built, allowed: &mut Vec<Val>) -> Resul
         v
     };
     let debris = list_debris();
-    let young: Vec<PathBuf> = debris.iter().filter(|p| p.file_name().map(|n| n != "stale-debris").unwrap_or(true)).cloned().collect();
+    let young: Vec<PathBuf> = debris.iter().filter(|p| p.file_name().map(|n| !n.to_string_lossy().starts_with("stale-debris")).unwrap_or(true)).cloned().collect();
     let mut sweep = |round: u32, allowed: &mut Vec<Val>| -> Result<(), (String, String)> {
         script_rng(true, 0);
         for (i, d) in cache_dirs(root, b).iter().enumerate() {
@@ -356,6 +360,11 @@ pub fn debris_lifecycle(root: &Path, b: &Built, allowed: &mut Vec<Val>) -> Resul
     };
     // a maintenance while the debris is young leaves it alone
     sweep(0, allowed)?;
+    // ... but the debris that was already older than the limit is removed by that one maintenance
+    let old_left: Vec<PathBuf> = list_debris().into_iter().filter(|p| p.file_name().map(|n| n.to_string_lossy().starts_with("stale-debris")).unwrap_or(false)).collect();
+    if !old_left.is_empty() {
+        return Err(("debris:stale-not-removed".into(), format!("{} temporary files older than the limit survived a maintenance of their directory (e.g. {})", old_left.len(), old_left[0].display())));
+    }
     for p in &young {
         if !p.exists() {
             return Err(("debris:young-removed".into(), format!("young temporary file {} was removed by maintenance", p.display())));
